@@ -291,7 +291,9 @@ def case_strategy():
             for p in pk:
                 cts = draw(st.lists(st.sampled_from(rest), min_size=1,
                                     max_size=3, unique=True))
-                groups[p] = {c: draw(st.sampled_from(["g1", "g2"]))
+                # labels may coincide with span ids (s0, s1, ...): a label
+                # names a group, never a span
+                groups[p] = {c: draw(st.sampled_from(["g1", "g2", "s1", "s2"]))
                              for c in cts}
             case["groups"] = groups
         case["order"] = draw(st.permutations(list(range(n))))
